@@ -925,6 +925,8 @@ class Exec(Ops):
 
   def setattr_(self, base, attr, v):
     b = self.deref(base)
+    if isinstance(b, SV) and getattr(b.sort, 'setattr_hook', None):
+      return b.sort.setattr_hook(self, b, attr, v)
     if isinstance(b, SV) and getattr(b.sort, 'fields', None) is not None:
       return self.obj_setattr(b, attr, v)
     raise OutsideSubset(f'attribute assignment on {b!r}')
